@@ -155,7 +155,7 @@ func walsOfAll(doc []byte) map[uint64][]string {
 // states a crash or a failed save would leave behind): whatever checkpoints file is stored at
 // that moment, the write-ahead logs of every checkpoint it lists still exist - logs go only once
 // the update has been saved.
-func checkRetentionOrder(c *mc.Ctx, evs []dkvh.FSEvent, docURI, what string) {
+func checkRetentionOrder(c *mc.Ctx, evs []dkvh.FSEvent, docURI, what string, norm func(string) string) {
 	for i, ev := range evs {
 		if ev.Files == nil {
 			continue
@@ -166,7 +166,7 @@ func checkRetentionOrder(c *mc.Ctx, evs []dkvh.FSEvent, docURI, what string) {
 		}
 		for id, ws := range walsOfAll(doc) {
 			for _, w := range ws {
-				if _, ok := ev.Files[w]; !ok {
+				if _, ok := ev.Files[norm(w)]; !ok {
 					c.FailSig("wal-removed-before-retention-saved", "%s: after storage step %d (%s) the stored checkpoints file still lists checkpoint %d, whose write-ahead log %s is already gone: a crash or a failed save here leaves a checkpoint that cannot be read", what, i+1, rel(ev.Op), id, rel(w))
 				}
 			}
@@ -373,7 +373,7 @@ func single(c *mc.Ctx) {
 				c.Failf("UpdateRetainedCheckpoints(%v): %v", ids, err)
 			}
 			if c.Fresh() && docURI != "" {
-				checkRetentionOrder(c, root.PeekLog(), docURI, fmt.Sprintf("Retain%v", ids))
+				checkRetentionOrder(c, root.PeekLog(), docURI, fmt.Sprintf("Retain%v", ids), func(u string) string { return u })
 			}
 			verify(fmt.Sprintf("Retain%v", ids))
 		case 5, 6, 7, 8:
